@@ -33,8 +33,11 @@ func decide(t fataler, s *graph.Scenario, tag string) {
 	default:
 		in.Extra = append(in.Extra, &graph.PriorityObsPP{ObsPP: base})
 	}
+	// stateless (zero-size) components next to the nodes: members of every qualified slice
+	nst := int((s.OrdSeed>>3)+uint64(len(s.Nodes))) % 4
+	in.Extra = append(in.Extra, zoo.Stateless(nst)...)
 	in.Run()
-	desc := tag + " " + s.Shape()
+	desc := fmt.Sprintf("%s %s stateless=%d", tag, s.Shape(), nst)
 	if in.Out.Panic != nil {
 		if b, ok := in.Out.Panic.(graph.BudgetExceeded); ok {
 			t.Fatalf("C02: start-up did not terminate within its step budget: %v\nscenario: %s", b, desc)
@@ -73,19 +76,44 @@ func decide(t fataler, s *graph.Scenario, tag string) {
 		}
 	}
 	if in.Out.Err == nil {
-		if err := graph.CheckWiring(g, false); err != nil {
+		// every populated point holds admissible targets only, required ones hold theirs, and slices hold ALL of theirs
+		if err := graph.CheckWiringOpt(g, graph.WiringOpts{Complete: true}); err != nil {
 			t.Fatalf("C02: %v\nscenario: %s\nreg %v ordmode %d seed %x", err, desc, s.RegPerm, s.OrdMode, s.OrdSeed)
 		}
 		labels = append(labels, "started")
+		// nothing fails and nothing substitutes: every component - the lazy ones nobody needed so far included - can be
+		// looked up by name now, and is then wired completely as well
+		lazies := 0
+		for _, c := range g.Pop {
+			if c.ID < 0 {
+				continue
+			}
+			if c.Lazy {
+				lazies++
+			}
+			var lerr error
+			if p := kit.Protect(func() { _, lerr = in.Out.App.GetComponentByName(c.Name) }); p != nil || lerr != nil {
+				t.Fatalf("C02: after the successful start the lookup of %q fails: %v %v\nscenario: %s", c.Name, p, lerr, desc)
+			}
+		}
+		if lazies > 0 {
+			if err := graph.CheckWiringOpt(g, graph.WiringOpts{Complete: true}); err != nil {
+				t.Fatalf("C02: after looking every component up: %v\nscenario: %s", err, desc)
+			}
+			labels = append(labels, "lazy-components-looked-up")
+		}
+		if nst >= 2 {
+			labels = append(labels, "stateless-components")
+		}
 		// now and then the very same component objects (fields still populated) are started in a second, fresh
 		// container: same graph, so it starts again and every required point holds its target
 		if (s.OrdSeed+uint64(len(s.Nodes)))%5 == 0 {
-			in.Extra = []any{&graph.ObsPP{Tag: "c02-second", Log: in.Log}}
+			in.Extra = append([]any{&graph.ObsPP{Tag: "c02-second", Log: in.Log}}, zoo.Stateless(nst)...)
 			in.Run()
 			if in.Out.Panic != nil || in.Out.Err != nil {
 				t.Fatalf("C02: the same components started in a second container: %v (the first start succeeded)\nscenario: %s", in.Out, desc)
 			}
-			if err := graph.CheckWiring(in.G, false); err != nil {
+			if err := graph.CheckWiringOpt(in.G, graph.WiringOpts{Complete: true}); err != nil {
 				t.Fatalf("C02: second container over the same components: %v\nscenario: %s", err, desc)
 			}
 			labels = append(labels, "second-container-same-objects")
@@ -313,7 +341,6 @@ func enumerate(t *testing.T, n int, withRequired bool) {
 func TestExhaustive2(t *testing.T) { enumerate(t, 2, true) }
 func TestExhaustive3(t *testing.T) { enumerate(t, 3, true) }
 func TestExhaustive4(t *testing.T) { enumerate(t, 4, false) }
-
 
 // drawZPar gives every scale-family node a drawn "parent": the node is held by the qualified slice of that
 // Z type if it is registered - data-driven edges (random functional graphs: long chains, trees, big cycles)
